@@ -1,10 +1,397 @@
-"""File-system fault seam and the C10 merge refusal / interruption machinery."""
+"""C10 machinery on top of the store simulator: refused merges and the
+fault/crash sweep over every intercepted file-system step of a merge."""
 from __future__ import annotations
 
+import gc
+import os
+import random
+import shutil
 
+from simkit.fsfaults import ERRNOS, FsSeam, SimCrash
+
+from . import store_gen as G
+from .store_model import MSession
+from .store_sim import OracleFailure, StoreSim
+
+REFUSAL_KINDS = ['missing_input', 'wrong_input_suffix', 'wrong_output_suffix', 'existing_output',
+                 'both_list_and_pattern', 'pattern_without_range', 'differing_fieldsets',
+                 'mixed_identification']
+
+
+# --------------------------------------------------------------------- helpers
+def _audit_path(sim: StoreSim, f, path: str, code: str, **feat):
+    """Open `path` read-only as a plain store and require it to equal model file f."""
+    from AEIC.trajectories import TrajectoryStore
+
+    try:
+        store = TrajectoryStore.open(base_file=path)
+    except Exception as e:  # noqa: BLE001
+        sim.fail(code, f'{os.path.basename(path)} does not open: {type(e).__name__}: {e}', part=f.name, **feat)
+    sess = MSession('audit', 'read', f, 2048, list(f.base_fs), store=store, len_at_open=len(f.rows))
+    try:
+        try:
+            n = len(store)
+            if n != len(f.rows):
+                sim.fail(code, f'{f.name}: {n} rows, model {len(f.rows)}', part=f.name, **feat)
+            for i in range(n):
+                t = store[i]
+                sim._check_read(sess, i, t, 'file', via='audit')
+        except OracleFailure as of:
+            of.v['code'] = code
+            of.v['props'] = ['C10']
+            of.v['features'].update(feat, part=f.name)
+            raise
+        except Exception as e:  # noqa: BLE001
+            sim.fail(code, f'{f.name} unreadable: {type(e).__name__}: {e}', part=f.name, **feat)
+    finally:
+        try:
+            store.close()
+        except Exception:  # noqa: BLE001
+            pass
+
+
+def _audit_merged(sim: StoreSim, out: str, parts, code: str, **feat):
+    """The directory opened as a merged store: it must satisfy C09 in full."""
+    from AEIC.trajectories import TrajectoryStore
+
+    try:
+        store = TrajectoryStore.open(base_file=sim.path(out))
+    except Exception:  # noqa: BLE001
+        return False
+    rows = [r for f in parts for r in f.rows]
+    specs = [s for f in parts for s in f.specs]
+
+    class _M:
+        pass
+
+    m = _M()
+    m.parts = [f.name for f in parts]
+    sess = MSession('audit', 'merged', None, 2048, list(parts[0].base_fs), store=store, merged=m)
+    sess.len_at_open = len(rows)
+    try:
+        try:
+            n = len(store)
+            if n != len(rows):
+                sim.fail(code, f'merged directory opens with {n} rows, inputs hold {len(rows)}', **feat)
+            for i in range(n):
+                sim._check_read(sess, i, store[i], 'file', via='audit')
+            if specs and specs[0].get('fid') is not None:
+                for i, s in enumerate(specs):
+                    t = store.get_flight(s['fid'])
+                    if t is None:
+                        sim.fail(code, f'merged directory: id {s["fid"]} not found', **feat)
+                    sim._check_read(sess, i, t, 'lookup', via='lookup')
+        except OracleFailure as of:
+            of.v['code'] = code
+            of.v['props'] = ['C10']
+            of.v['features'].update(feat)
+            raise
+        except Exception as e:  # noqa: BLE001
+            sim.fail(code, f'merged directory opens but is unreadable: {type(e).__name__}: {e}', **feat)
+    finally:
+        try:
+            store.close()
+        except Exception:  # noqa: BLE001
+            pass
+    return True
+
+
+def _snapshot_dir(sim: StoreSim) -> str:
+    bak = sim.sandbox + '.bak'
+    shutil.rmtree(bak, ignore_errors=True)
+    shutil.copytree(sim.sandbox, bak)
+    return bak
+
+
+def _restore_dir(sim: StoreSim, bak: str):
+    for name in os.listdir(sim.sandbox):
+        p = os.path.join(sim.sandbox, name)
+        if os.path.isdir(p) and not os.path.islink(p):
+            shutil.rmtree(p)
+        else:
+            os.remove(p)
+    for name in os.listdir(bak):
+        s = os.path.join(bak, name)
+        d = os.path.join(sim.sandbox, name)
+        if os.path.isdir(s):
+            shutil.copytree(s, d)
+        else:
+            shutil.copy2(s, d)
+
+
+def _seam(sim: StoreSim) -> FsSeam:
+    if sim.fsfaults is None:
+        sim.fsfaults = FsSeam(sim.sandbox)
+        sim.fsfaults.install()
+    return sim.fsfaults
+
+
+# ------------------------------------------------------------- refused merges
+def op_merge_refused(self: StoreSim, op):
+    from AEIC.trajectories import TrajectoryStore
+
+    if self.sessions:
+        return None
+    kind = op['kind']
+    good = [self.files.get(n) for n in op['inputs']]
+    if any(f is None or not f.exists or f.open_by is not None or f.where for f in good) or not good:
+        return None
+    if len(set(f.name for f in good)) != len(good) or not self._compatible(good, 'base', None):
+        return None
+    out = op['out']
+    if out in self.merged or os.path.exists(self.path(out)):
+        return None
+    good_paths = [self.fpath(f) for f in good]
+    bad_kwargs = dict(input_stores=list(good_paths))
+    bad_out = self.path(out)
+    retry_out = self.path(out)
+    extra = None
+    if kind == 'missing_input':
+        bad_kwargs['input_stores'] = good_paths + [self.path('does_not_exist.nc')]
+    elif kind == 'wrong_input_suffix':
+        odd = self.path('odd_input.dat')
+        shutil.copy2(good_paths[0], odd)
+        bad_kwargs['input_stores'] = good_paths + [odd]
+    elif kind == 'wrong_output_suffix':
+        bad_out = self.path(out.replace('.aeic-store', '.store'))
+    elif kind == 'existing_output':
+        os.mkdir(self.path(out))
+        retry_out = self.path('r_' + out)
+    elif kind == 'both_list_and_pattern':
+        bad_kwargs['input_stores_pattern'] = self.path('g0_{index}.nc')
+        bad_kwargs['input_stores_index_range'] = (0, 1)
+    elif kind == 'pattern_without_range':
+        bad_kwargs = dict(input_stores_pattern=self.path('g0_{index}.nc'))
+    elif kind in ('differing_fieldsets', 'mixed_identification'):
+        extra = self.files.get(op.get('extra', ''))
+        if extra is None or not extra.exists or extra.open_by is not None or extra.where or extra in good:
+            return None
+        if kind == 'differing_fieldsets' and sorted(extra.base_fs) == sorted(good[0].base_fs):
+            return None
+        if kind == 'mixed_identification' and (extra.ident == good[0].ident
+                                               or sorted(extra.base_fs) != sorted(good[0].base_fs)):
+            return None
+        pos = op.get('extra_pos', len(good_paths)) % (len(good_paths) + 1)
+        lst = list(good_paths)
+        lst.insert(pos, self.fpath(extra))
+        bad_kwargs['input_stores'] = lst
+    else:
+        return None
+    feat = dict(kind=kind, n_inputs=len(good))
+    try:
+        TrajectoryStore.merge(bad_out, **bad_kwargs)
+    except Exception as e:  # noqa: BLE001
+        refused = type(e).__name__
+    else:
+        self.fail('mrefuse.accepted', f'merge with {kind} was accepted', **feat)
+    gc.collect()
+    # every input still opens at its original path with its original content
+    for f in good + ([extra] if extra is not None else []):
+        if not os.path.exists(self.fpath(f)):
+            self.fail('mrefuse.input_damaged', f'{f.name} no longer at its original path', part=f.name, **feat)
+        _audit_path(self, f, self.fpath(f), 'mrefuse.input_damaged', **feat)
+    # the same call with the offending argument corrected succeeds
+    try:
+        TrajectoryStore.merge(retry_out, input_stores=list(good_paths))
+    except Exception as e:  # noqa: BLE001
+        self.fail('mrefuse.retry_refused', f'corrected call refused: {type(e).__name__}: {e}', **feat)
+    gc.collect()
+    name = os.path.basename(retry_out)
+    op2 = dict(op)
+    op2['out'] = name
+    self._merge_commit(op2, good, 'base', None)
+    if not _audit_merged(self, name, good, 'mrefuse.retry_refused', **feat):
+        self.fail('mrefuse.retry_refused', 'corrected merge does not open', **feat)
+    self.probes['mrefuse_' + kind] += 1
+    return f'refused:{refused}'
+
+
+# ------------------------------------------------------ interrupted merges (sweep)
+def op_merge_sweep(self: StoreSim, op):
+    from AEIC.trajectories import TrajectoryStore
+
+    if self.sessions:
+        return None
+    r = self._merge_inputs(op)
+    if r is None or op['out'] in self.merged or os.path.exists(self.path(op['out'])):
+        return None
+    paths, parts, kind, akey = r
+    if kind != 'base' or len(set(f.name for f in parts)) != len(parts) or not self._compatible(parts, kind, akey):
+        return None
+    if op.get('pattern'):
+        pat = op['pattern']
+        want = [pat['pattern'].format(index=i) for i in range(pat['lo'], pat['hi'] + 1)]
+        if want != [os.path.basename(p) for p in paths]:
+            return None
+    seam = _seam(self)
+    out = op['out']
+    bak = _snapshot_dir(self)
+    crng = random.Random(op.get('crash_seed', 0))
+    try:
+        # 1. fault-free counting run
+        seam.begin({})
+        try:
+            self._merge_call(op, paths)
+        except Exception as e:  # noqa: BLE001
+            seam.end()
+            self.fail('merge.refused', f'{type(e).__name__}: {e}', kind=kind, n_inputs=len(parts))
+        seam.end()
+        gc.collect()
+        labels = list(seam.labels)
+        K = len(labels)
+        self.probes['mfault_points_total'] += K
+        _restore_dir(self, bak)
+        only = op.get('only')
+        todo = [(k, fk) for k in range(K) for fk in ('error', 'crash')]
+        if only:
+            todo = [(k, fk) for k, fk in todo if [k, fk] == list(only)]
+        for k, fk in todo:
+            label = labels[k]
+            if fk == 'error':
+                en = 'EXDEV' if 'os.rename' in label else 'EEXIST' if 'os.mkdir' in label else \
+                    crng.choice(['EIO', 'ENOSPC', 'EACCES'])
+                plan = {k: ('error', ERRNOS[en])}
+            else:
+                plan = {k: ('crash',)}
+            feat = dict(step=_norm_label(label), fault=fk, n_inputs=len(parts),
+                        ident=bool(parts[0].ident))
+            seam.begin(plan)
+            crashed = False
+            raised = None
+            try:
+                self._merge_call(op, paths)
+            except SimCrash:
+                crashed = True
+            except Exception as e:  # noqa: BLE001
+                # keep only the text: the traceback would pin the stores that merge() had
+                # opened (and their HDF5 handles) while the harness moves files around
+                raised = f'{type(e).__name__}: {e}'
+            seam.end()
+            if not seam.fired:
+                raise RuntimeError(f'harness: fault point {k} ({label}) not reached on the faulted run')
+            self.faults[fk] += 1
+            self.faults['at:' + label.split(' ')[1].split('(')[0].split('#')[0]] += 1
+            if crashed:
+                acts = seam.crash_cleanup(lambda kind_, n: crng.randrange(n))
+                for a in acts:
+                    self.faults['crash_' + a[0]] += 1
+            else:
+                # an error was raised (or swallowed): python objects stay alive until GC
+                for f_ in list(seam.open_write_files):
+                    pass
+            gc.collect()
+            try:
+                self._check_after_fault(op, paths, parts, out, feat, raised, crashed)
+            except OracleFailure as of:
+                of.v['failing_op'] = {**{k_: v_ for k_, v_ in op.items() if k_ != 'res'}, 'only': [k, fk]}
+                raise
+            _restore_dir(self, bak)
+            self.probes['mfault_' + fk] += 1
+        # finally: the real, fault-free merge, so the history continues
+        self._merge_call(op, paths)
+        gc.collect()
+        self._merge_commit(op, parts, kind, akey)
+        self.probes['merge_sweeps'] += 1
+        return K
+    finally:
+        seam.end()
+        shutil.rmtree(bak, ignore_errors=True)
+
+
+def _norm_label(label: str) -> str:
+    """Stable step label for known-findings keys: 'after os.rename #2' style."""
+    return label
+
+
+def _check_after_fault(self: StoreSim, op, paths, parts, out, feat, raised, crashed):
+    from AEIC.trajectories import TrajectoryStore
+
+    outdir = self.path(out)
+    # (a) every input is readable from exactly one of {original path, <out>/<name>}
+    locations = []
+    for f, p in zip(parts, paths):
+        moved = os.path.join(outdir, os.path.basename(p))
+        here, there = os.path.exists(p), os.path.exists(moved)
+        if here and there:
+            self.fail('mfault.duplicated', f'{f.name} exists at both locations', part=f.name, **feat)
+        if not here and not there:
+            self.fail('mfault.lost', f'{f.name} is at neither location', part=f.name, **feat)
+        loc = p if here else moved
+        locations.append(loc)
+        _audit_path(self, f, loc, 'mfault.lost', **feat)
+    # (b) a directory that opens as a merged store is complete
+    if os.path.isdir(outdir):
+        opened = _audit_merged(self, out, parts, 'mfault.false_complete', **feat)
+        if opened:
+            self.probes['mfault_complete_after_fault'] += 1
+    # (c) retry after the operator clean-up anybody can do
+    for f, p, loc in zip(parts, paths, locations):
+        if loc != p:
+            os.rename(loc, p)
+    shutil.rmtree(outdir, ignore_errors=True)
+    gc.collect()
+    try:
+        self._merge_call(op, paths)
+    except Exception as e:  # noqa: BLE001
+        self.fail('mfault.retry_failed', f'retry after clean-up failed: {type(e).__name__}: {e}', **feat)
+    gc.collect()
+    if not _audit_merged(self, out, parts, 'mfault.retry_failed', **feat):
+        self.fail('mfault.retry_failed', 'retried merge does not open', **feat)
+
+
+StoreSim.op_merge_refused = op_merge_refused
+StoreSim.op_merge_sweep = op_merge_sweep
+StoreSim._check_after_fault = _check_after_fault
+
+
+# ------------------------------------------------------------------ generation
 def gen_merge_refused(gen):
-    return None
+    rng = gen.rng
+    sim = gen.sim
+    if sim.sessions:
+        # close something instead, to get to a quiescent point
+        return gen.g_close_all_one()
+    bg = gen._merge_candidates()
+    if not bg:
+        return None
+    gid = rng.choice(list(bg))
+    files = bg[gid]
+    chosen = rng.sample(files, rng.randint(1, len(files)))
+    kind = rng.choice(REFUSAL_KINDS)
+    gen.nmerged += 1
+    op = {'op': 'merge_refused', 'kind': kind, 'out': f'm{gen.nmerged}.aeic-store',
+          'inputs': [f.name for f in chosen]}
+    if kind in ('differing_fieldsets', 'mixed_identification'):
+        others = [f for g2, fl in bg.items() if g2 != gid for f in fl]
+        if kind == 'differing_fieldsets':
+            others = [f for f in others if sorted(f.base_fs) != sorted(chosen[0].base_fs)]
+        else:
+            others = [f for f in others if f.ident != chosen[0].ident
+                      and sorted(f.base_fs) == sorted(chosen[0].base_fs)]
+        if not others:
+            return None
+        op['extra'] = rng.choice(others).name
+        op['extra_pos'] = rng.randint(0, len(chosen))
+    return op
 
 
 def gen_merge_faulted(gen):
-    return None
+    rng = gen.rng
+    sim = gen.sim
+    if sim.sessions:
+        return gen.g_close_all_one()
+    bg = gen._merge_candidates()
+    if not bg:
+        return None
+    gid = rng.choice(list(bg))
+    files = bg[gid]
+    chosen = rng.sample(files, rng.randint(1, min(4, len(files))))
+    if rng.random() < 0.5:
+        chosen.sort(key=lambda f: f.name)
+    gen.nmerged += 1
+    op = {'op': 'merge_sweep', 'out': f'm{gen.nmerged}.aeic-store', 'inputs': [f.name for f in chosen],
+          'crash_seed': rng.randint(0, 10 ** 9)}
+    idxs = [int(f.name.split('_')[1].split('.')[0]) for f in chosen]
+    if idxs == list(range(idxs[0], idxs[0] + len(idxs))) and rng.random() < 0.4:
+        op['pattern'] = {'pattern': f'g{gid}_{{index}}.nc', 'lo': idxs[0], 'hi': idxs[-1]}
+    return op
